@@ -49,6 +49,43 @@ static void check_ifft(int n, vh::Rng& r) {
     //round trip
     const arr_cmplx x = gauss_cmplx(r, n);
     judge("ifft(fft(x))", dl::ifft(dl::fft(x)), to_ref(x), norm2(x));
+    //structured signals whose spectra are (almost) conjugate-symmetric: real signals, real plus a constant / alternating imaginary
+    //part (only the DC and Nyquist bins break the symmetry), purely imaginary, constant, single tone, impulse
+    {
+        arr_cmplx z(n);
+        const int kind = int(r.below(7));
+        const double ca = r.gauss(), cb = r.gauss();
+        for (int i = 0; i < n; ++i) {
+            const double re = r.gauss();
+            switch (kind) {
+            case 0: z[i] = cmplx_t{re, 0}; break;
+            case 1: z[i] = cmplx_t{re, ca + ((i % 2) ? -cb : cb)}; break;
+            case 2: z[i] = cmplx_t{0, re}; break;
+            case 3: z[i] = cmplx_t{0.75, -0.5}; break;
+            case 4: z[i] = cmplx_t{(i == n / 3) ? 1.0 : 0.0, ca}; break;
+            case 5: z[i] = cmplx_t{std::cos(2 * 3.14159265358979323846 * 3 * i / n), cb * ((i % 2) ? -1.0 : 1.0)}; break;
+            default: z[i] = cmplx_t{re, ca}; break;
+            }
+        }
+        const ld nz = norm2(z);
+        if (nz > 0) {
+            judge("ifft(fft(structured))", dl::ifft(dl::fft(z)), to_ref(z), nz);
+            //the exact spectrum of z (long double), rounded to double, through ifft and the plan
+            const CV Zr = ref::dft(to_ref(z), -1);
+            arr_cmplx Z(n);
+            for (int i = 0; i < n; ++i) {
+                Z[i] = cmplx_t{double(Zr[i].re), double(Zr[i].im)};
+            }
+            const CV back0 = ref::dft(to_ref(Z), +1);
+            CV back(n);
+            for (int i = 0; i < n; ++i) {
+                back[i] = back0[i] * (ld(1) / n);
+            }
+            judge("ifft(structured spectrum)", dl::ifft(Z), back, ref::norm2(back));
+            judge("ifftplan(structured spectrum)", plan.solve(Z), back, ref::norm2(back));
+            vh::obs_add("structured_spectra");
+        }
+    }
 }
 
 static void check_irfft(int n, vh::Rng& r) {
@@ -208,7 +245,12 @@ static void check_stft(int nfft, int nwin, const Win& win, int overlap, vh::Rng&
                 continue;
             }
             vh::begin_case("istft", "win=%s nfft=%d nwin=%d overlap=%d method=%s range=%s nx=%d", win.name.c_str(), nfft, nwin, overlap, mi ? "wola" : "ola", range_name(range), nx);
-            const arr_real x = gauss_real(r, nx);
+            arr_real x = gauss_real(r, nx);
+            //the round trip is linear: a quarter of the signals live at an extreme but legal level (1e-250 .. 1e250)
+            if (r.below(4) == 0) {
+                x *= std::pow(10.0, r.uni(-250, 250));
+                vh::obs_add("istft_signals_at_extreme_level");
+            }
             const auto S = dl::stft(x, win.w, overlap, nfft, range);
             const arr_real y = dl::istft(S, win.w, overlap, nfft, range, method);
             vh::Hasher h;
